@@ -34,8 +34,10 @@ struct BTreeInspector;
 #include <algorithm>
 #include <climits>
 #include <cstdio>
+#include <deque>
 #include <functional>
 #include <iterator>
+#include <list>
 #include <map>
 #include <memory>
 #include <set>
@@ -557,6 +559,67 @@ struct ITree {
     virtual void verify() const = 0; // throws when the self-check fails
     virtual bool less(int a, int b) const = 0;
     virtual void cmp_state(unsigned& shift, bool& desc) const = 0;
+
+    // ===== public members found by the API audit (round 7). The observers are called without any draw by every target;
+    // the operations are driven by the targets btree_api (C01) / btree_api_invariants (C02) only. =====
+    struct Stats { // get_stats() through the PUBLIC accessor of the facade (the inspector reads the private member)
+        size_t size = 0, leaves = 0, inner_nodes = 0, nodes = 0;
+        double avgfill = 0; // avgfill_leaves(), only evaluated when leaves > 0
+        unsigned leaf_slots = 0, inner_slots = 0;
+    };
+    virtual void stats(Stats& s) const = 0;
+    virtual size_t max_size() const = 0;
+    virtual long alloc_arena() const = 0;                                         // get_allocator(): arena of an ArenaAllocator, -1 for a stateless one
+    virtual bool alloc_equal(const ITree& other) const = 0;                       // get_allocator() == other.get_allocator()
+    virtual bool value_less(const KD& a, const KD& b, bool& available) const = 0; // value_comp()(a, b)
+    virtual int default_datum() const = 0;                                        // key_int(data_type()) (maps), 0 otherwise
+    // btree_map::operator[]: r = t[k]; before = r; if (write) r = d; after = t[k]; same = (&t[k] == &r). false: the kind has no operator[]
+    virtual bool subscript(int k, bool write, int d, int& before, int& after, bool& same) = 0;
+    virtual bool write_cursor(int d, bool arrow) = 0; // (*cur).second = d / cur->second = d (maps and multimaps; cur from locate())
+    // insert(first,last) with iterator kind itk: 0 vector::iterator 1 single-pass input iterator 2 const value_type* 3 std::list::const_iterator
+    //   4 iterators over std::pair<const Key, Data> (maps; sets: std::deque::const_iterator)
+    virtual void insert_range_it(const std::vector<KD>& v, unsigned itk) = 0;
+    // bulk_load(first,last) with iterator kind itk: 0 vector::iterator 1 const value_type* 2 std::deque::const_iterator 3 vector::const_iterator
+    virtual void bulk_load_it(const std::vector<KD>& v, unsigned itk) = 0;
+    virtual ITree* move_clone() = 0;           // Tree(std::move(*this))
+    virtual void move_assign(ITree& from) = 0; // *this = std::move(from)
+    virtual void std_swap(ITree& other) = 0;   // using std::swap; swap(a, b)  (no overload in tlx: the generic std::swap)
+    // conversions between the four iterator flavours and use of the iterators with the std iterator algorithms, at
+    // position pos of n; every comparison is made with the container's own operators; returns the first discrepancy ("" = none).
+    // flags: bit0 the shape was skipped (the converted (leaf,slot) pair is not canonical in the target flavour)
+    virtual std::string convert(unsigned which, size_t pos, size_t n, unsigned& flags) = 0;
+};
+
+//! a genuine INPUT iterator over a vector: single pass (a position another copy has moved past may not be read again)
+template <class V>
+struct SinglePassIt {
+    typedef std::input_iterator_tag iterator_category;
+    typedef V value_type;
+    typedef std::ptrdiff_t difference_type;
+    typedef const V* pointer;
+    typedef const V& reference;
+    const std::vector<V>* v = nullptr;
+    size_t i = 0;
+    size_t* high = nullptr; // positions < *high have been passed by some copy
+    SinglePassIt() {}
+    SinglePassIt(const std::vector<V>* vv, size_t ii, size_t* h) : v(vv), i(ii), high(h) {}
+    reference operator*() const {
+        if (i < *high) pbt::fatal("harness/input-iterator-reread", "the container read a position of a single-pass input range again after moving past it");
+        return (*v)[i];
+    }
+    pointer operator->() const { return &**this; }
+    SinglePassIt& operator++() {
+        ++i;
+        if (i > *high) *high = i;
+        return *this;
+    }
+    SinglePassIt operator++(int) {
+        SinglePassIt tmp = *this;
+        ++*this;
+        return tmp;
+    }
+    bool operator==(const SinglePassIt& o) const { return i == o.i; }
+    bool operator!=(const SinglePassIt& o) const { return i != o.i; }
 };
 
 //! type-erased std::set / multiset / map / multimap (C01 only)
@@ -582,6 +645,10 @@ struct IModel {
     virtual void seq(std::vector<KD>& out) const = 0;
     virtual bool less(int a, int b) const = 0;
     virtual void cmp_state(unsigned& shift, bool& desc) const = 0;
+    // API audit additions
+    virtual bool value_less(const KD& a, const KD& b) const = 0;                // value_comp()(a, b)
+    virtual bool subscript(int k, bool write, int d, int& before, int& after) = 0; // std::map::operator[]; false: not a map
+    virtual void write_rank(size_t r, int d) = 0;                               // (begin()+r)->second = d (map / multimap)
 };
 typedef IModel* (*ModelFactory)(Kind, CmpId, unsigned shift, bool desc);
 ModelFactory& model_factory(); // defined in C01_btree_history.cpp; set by C01_btree_models.cpp
@@ -736,23 +803,106 @@ public:
     template <class... A>
     explicit TreeAdapter(Build, A&&... a) : t(std::forward<A>(a)...) {}
 
+private:
+    // ----- construction -----
+    //! get_allocator() of a container constructed with an explicit allocator instance must be that instance
+    static ITree* checked_alloc(TreeAdapter* r, const TAlloc& al) {
+        const bool same = (r->t.get_allocator() == al) && !(r->t.get_allocator() != al);
+        if (!same) {
+            delete r;
+            pbt::fail(C::counting ? "C02/get-allocator" : "C01/get-allocator", "get_allocator() of a container constructed with an explicit allocator is not equal to that allocator");
+        }
+        return r;
+    }
+    //! calls f(first, last) with the values of v presented through iterators of kind itk (see ITree::insert_range_it)
+    //! (All = false: only the kinds 0..2 are compiled -- used for the constructors, four forms each, to bound the compile time)
+    template <bool All, class F>
+    static void with_range(const std::vector<value_type>& v, unsigned itk, F&& f) {
+        if (!All && itk > 2) itk = 1 + (itk & 1);
+        switch (itk) {
+        case 1: {
+            size_t high = 0;
+            f(SinglePassIt<value_type>(&v, 0, &high), SinglePassIt<value_type>(&v, v.size(), &high));
+            break;
+        }
+        case 2: {
+            const value_type* p = v.data();
+            f(p, p + v.size());
+            break;
+        }
+        case 3: {
+            if constexpr (All) {
+                std::list<value_type> l(v.begin(), v.end());
+                f(l.cbegin(), l.cend());
+            }
+            break;
+        }
+        case 4: {
+            if constexpr (!All) break;
+            else if constexpr (C::is_map) { // element type convertible to value_type (what iterating a std::map gives)
+                std::vector<std::pair<const Key, typename C::Dat> > w(v.begin(), v.end());
+                f(w.begin(), w.end());
+            }
+            else {
+                std::deque<value_type> d(v.begin(), v.end());
+                f(d.cbegin(), d.cend());
+            }
+            break;
+        }
+        default: {
+            std::vector<value_type> w(v);
+            f(w.begin(), w.end());
+            break;
+        }
+        }
+    }
+    template <class It>
+    static ITree* make_range(unsigned form, It f, It l, const TCmp& cmp) {
+        switch (form) {
+        case 3: return new TreeAdapter(Build(), f, l);
+        case 4: return new TreeAdapter(Build(), f, l, cmp);
+        case 5: {
+            TAlloc al;
+            return checked_alloc(new TreeAdapter(Build(), f, l, al), al);
+        }
+        default: {
+            TAlloc al;
+            return checked_alloc(new TreeAdapter(Build(), f, l, cmp, al), al);
+        }
+        }
+    }
+
+public:
+    // variant & 15: 0 T() 1 T(cmp) 2 T(alloc) 3 T(first,last) 4 T(first,last,cmp) 5 T(first,last,alloc) 6 T(cmp,alloc) 7 T(first,last,cmp,alloc)
+    // variant >> 4: iterator kind of the range: 0 vector::iterator 1 single-pass input iterator 2 const value_type*
     ITree* make(unsigned variant, const std::vector<KD>& range, unsigned shift, bool desc) const override {
         TCmp cmp = C::cmp_tag::template make<Key>(shift, desc);
-        std::vector<value_type> v;
-        if (variant >= 3) to_vals(range, v);
-        switch (variant) {
+        const unsigned form = variant & 15, itk = variant >> 4;
+        switch (form) {
         case 0: return new TreeAdapter(Build());
         case 1: return new TreeAdapter(Build(), cmp);
-        case 2: return new TreeAdapter(Build(), TAlloc());
-        case 3: return new TreeAdapter(Build(), v.begin(), v.end());
-        case 4: return new TreeAdapter(Build(), v.begin(), v.end(), cmp);
-        default: return new TreeAdapter(Build(), v.begin(), v.end(), TAlloc());
+        case 2: {
+            TAlloc al;
+            return checked_alloc(new TreeAdapter(Build(), al), al);
         }
+        case 6: {
+            TAlloc al;
+            return checked_alloc(new TreeAdapter(Build(), cmp, al), al);
+        }
+        default: break;
+        }
+        std::vector<value_type> v;
+        to_vals(range, v);
+        if (itk == 0) return make_range(form, v.begin(), v.end(), cmp);
+        ITree* r = nullptr;
+        with_range<false>(v, itk, [&](auto f, auto l) { r = make_range(form, f, l, cmp); });
+        return r;
     }
     ITree* clone() const override { return new TreeAdapter(Build(), t); }
     void assign(const ITree& from) override {
         const Tree& o = down(from).t;
-        t = o;
+        Tree& r = (t = o);
+        if (&r != &t) pbt::fail(C::counting ? "C02/assign-result" : "C01/assign-result", "operator= did not return a reference to *this");
     }
     void swap(ITree& other) override { t.swap(down(other).t); }
     void clear() override { t.clear(); }
@@ -1026,6 +1176,238 @@ public:
     void verify() const override { t.verify(); }
     bool less(int a, int b) const override { return t.key_comp()(C::key(a), C::key(b)); }
     void cmp_state(unsigned& shift, bool& desc) const override { C::cmp_tag::state(t.key_comp(), shift, desc); }
+
+    // ===== API audit additions =====
+private:
+    template <class A>
+    static long arena_of(const A&) { return -1; }
+    template <class T>
+    static long arena_of(const ArenaAllocator<T>& a) { return a.arena; }
+
+public:
+    void stats(Stats& s) const override {
+        const typename Tree::tree_stats& st = ct().get_stats();
+        s.size = st.size, s.leaves = st.leaves, s.inner_nodes = st.inner_nodes, s.nodes = st.nodes();
+        s.avgfill = st.leaves ? st.avgfill_leaves() : 0.0;
+        s.leaf_slots = st.leaf_slots, s.inner_slots = st.inner_slots;
+    }
+    size_t max_size() const override { return ct().max_size(); }
+    long alloc_arena() const override { return arena_of(ct().get_allocator()); }
+    bool alloc_equal(const ITree& other) const override {
+        return (ct().get_allocator() == down(other).ct().get_allocator()) && !(ct().get_allocator() != down(other).ct().get_allocator());
+    }
+    bool value_less(const KD& a, const KD& b, bool& available) const override {
+        typename Tree::value_compare vc = ct().value_comp(); // (constructing the object is possible for every kind)
+        available = true;
+        if constexpr (C::is_map) return vc(C::make(a.first, a.second), C::make(b.first, b.second));
+        else {
+#ifdef VERIF_BTREE_API_FIXES // value_compare::operator() does not compile for the set kinds (fixes/C01/new-set-value-comp.txt)
+            return vc(C::make(a.first, a.second), C::make(b.first, b.second));
+#else
+            (void)vc;
+            available = false;
+            return false;
+#endif
+        }
+    }
+    int default_datum() const override {
+        if constexpr (C::is_map) return key_int(typename C::Dat());
+        else return 0;
+    }
+    bool subscript(int k, bool write, int d, int& before, int& after, bool& same) override {
+        if constexpr (C::kind == MAP && !C::raw) {
+            typedef typename C::Dat Dat;
+            const Key key(C::key(k));
+            Dat& r = t[key];
+            before = key_int(r);
+            if (write) r = C::dat(d);
+            Dat& r2 = t[key]; // must find the element created / found by the first call
+            after = key_int(r2);
+            same = (&r2 == &r);
+            cur = t.find(key);
+            return true;
+        }
+        else {
+            (void)k, (void)write, (void)d, (void)before, (void)after, (void)same;
+            return false;
+        }
+    }
+    bool write_cursor(int d, bool arrow) override {
+        if constexpr (C::is_map) {
+            if (arrow) cur->second = C::dat(d);
+            else (*cur).second = C::dat(d);
+            return true;
+        }
+        else {
+            (void)d, (void)arrow;
+            return false;
+        }
+    }
+    void insert_range_it(const std::vector<KD>& in, unsigned itk) override {
+        std::vector<value_type> v;
+        to_vals(in, v);
+        with_range<true>(v, itk, [&](auto f, auto l) { t.insert(f, l); });
+    }
+    void bulk_load_it(const std::vector<KD>& in, unsigned itk) override {
+        std::vector<value_type> v;
+        to_vals(in, v);
+        switch (itk) {
+        case 1: {
+            const value_type* p = v.data();
+            t.bulk_load(p, p + v.size());
+            break;
+        }
+        case 2: {
+            std::deque<value_type> dq(v.begin(), v.end());
+            t.bulk_load(dq.cbegin(), dq.cend());
+            break;
+        }
+        case 3: t.bulk_load(v.cbegin(), v.cend()); break;
+        default: t.bulk_load(v.begin(), v.end()); break;
+        }
+    }
+    ITree* move_clone() override { return new TreeAdapter(Build(), std::move(t)); }
+    void move_assign(ITree& from) override {
+        Tree& r = (t = std::move(down(from).t));
+        if (&r != &t) pbt::fail(C::counting ? "C02/assign-result" : "C01/assign-result", "operator= (rvalue argument) did not return a reference to *this");
+    }
+    void std_swap(ITree& other) override {
+        using std::swap;
+        swap(t, down(other).t);
+    }
+
+    std::string convert(unsigned which, size_t pos, size_t n, unsigned& flags) override {
+        flags = 0;
+        std::ostringstream os;
+        iterator it = advance_to(t.begin(), t.end(), pos, n);
+        const_iterator cit = advance_to(ct().begin(), ct().end(), pos, n);
+        reverse_iterator rit = advance_to(t.rbegin(), t.rend(), pos, n); // refers to the element at rank n-1-pos
+        const_reverse_iterator crit = advance_to(ct().rbegin(), ct().rend(), pos, n);
+        switch (which) {
+        case 0: { // iterator -> const_iterator (std: implicit conversion)
+            const_iterator c(it);
+            const_iterator c2;
+            c2 = it;
+            if (!(c == cit) || (c != cit)) os << "const_iterator(iterator at rank " << pos << ") is not begin() const + " << pos;
+            else if (!(c2 == cit) || (c2 != cit)) os << "const_iterator assigned from the iterator at rank " << pos << " is not begin() const + " << pos;
+            else if (!(cit == it) || (cit != it)) os << "const_iterator == iterator (converted operand) is false for the same rank " << pos;
+            else if (pos < n && &*c != &*it) os << "const_iterator(iterator at rank " << pos << ") refers to another element";
+            else if (pos < n && key_int(c.key()) != key_int(it.key())) os << "const_iterator(iterator).key() differs at rank " << pos;
+            break;
+        }
+        case 1: { // reverse_iterator -> const_reverse_iterator (std: converting constructor of std::reverse_iterator)
+            const_reverse_iterator c(rit);
+            const_reverse_iterator c2;
+            c2 = rit;
+            if (!(c == crit) || (c != crit)) os << "const_reverse_iterator(reverse_iterator at reverse rank " << pos << ") is not rbegin() const + " << pos;
+            else if (!(c2 == crit)) os << "const_reverse_iterator assigned from the reverse_iterator at reverse rank " << pos << " is not rbegin() const + " << pos;
+            else if (!(crit == rit) || (crit != rit)) os << "const_reverse_iterator == reverse_iterator (converted operand) is false for the same reverse rank " << pos;
+            else if (pos < n && &*c != &*rit) os << "const_reverse_iterator(reverse_iterator at reverse rank " << pos << ") refers to another element";
+            break;
+        }
+        case 2:   // iterator -> reverse_iterator            (std: explicit reverse_iterator(it), refers to the element before it)
+        case 3: { // iterator / const_iterator -> const_reverse_iterator
+            reverse_iterator e = advance_to(t.rbegin(), t.rend(), n - pos, n);
+            const_reverse_iterator ce = advance_to(ct().rbegin(), ct().rend(), n - pos, n);
+            if (BTreeInspector::leaf_of(e) != BTreeInspector::leaf_of(it)) { // (leaf, slot 0) of a non-first leaf: not a canonical reverse position
+                flags |= 1;
+                break;
+            }
+            if (which == 2) {
+                reverse_iterator r(it);
+                if (!(r == e) || (r != e)) os << "reverse_iterator(iterator at rank " << pos << ") is not rbegin() + " << (n - pos);
+                else if (pos > 0) {
+                    iterator p = it;
+                    --p;
+                    if (&*r != &*p) os << "reverse_iterator(iterator at rank " << pos << ") does not refer to the element before it";
+                }
+            }
+            else {
+                const_reverse_iterator a(it), b(cit);
+                if (!(a == ce) || (a != ce)) os << "const_reverse_iterator(iterator at rank " << pos << ") is not rbegin() const + " << (n - pos);
+                else if (!(b == ce) || (b != ce)) os << "const_reverse_iterator(const_iterator at rank " << pos << ") is not rbegin() const + " << (n - pos);
+                else if (pos > 0) {
+                    const_iterator p = cit;
+                    --p;
+                    if (&*a != &*p || &*b != &*p) os << "const_reverse_iterator(iterator at rank " << pos << ") does not refer to the element before it";
+                }
+            }
+            break;
+        }
+        case 4:   // reverse_iterator -> iterator            (std: rit.base(), refers to the element after *rit)
+        case 5: { // reverse_iterator / const_reverse_iterator -> const_iterator
+            iterator e = advance_to(t.begin(), t.end(), n - pos, n);
+            const_iterator ce = advance_to(ct().begin(), ct().end(), n - pos, n);
+            if (BTreeInspector::leaf_of(e) != BTreeInspector::leaf_of(rit)) { // (leaf, slotuse) of a non-last leaf: not a canonical forward position
+                flags |= 1;
+                break;
+            }
+            if (which == 4) {
+                iterator i(rit);
+                if (!(i == e) || (i != e)) os << "iterator(reverse_iterator at reverse rank " << pos << ") is not begin() + " << (n - pos);
+                else if (pos > 0 && &*i != &*e) os << "iterator(reverse_iterator at reverse rank " << pos << ") refers to another element than begin() + " << (n - pos);
+                else if (pos < n) {
+                    iterator p = i;
+                    --p;
+                    if (&*p != &*rit) os << "the element before iterator(reverse_iterator) is not the one the reverse_iterator refers to (reverse rank " << pos << ")";
+                }
+            }
+            else {
+                const_iterator a(rit);
+#ifdef VERIF_BTREE_API_FIXES // const_iterator(const const_reverse_iterator&) reads private members of a class that does not befriend it:
+                const_iterator b(crit); // it does not compile (fixes/C01/new-const-iterator-from-const-reverse.txt)
+#else
+                const_iterator b(a);
+                (void)crit;
+#endif
+                if (!(a == ce) || (a != ce)) os << "const_iterator(reverse_iterator at reverse rank " << pos << ") is not begin() const + " << (n - pos);
+                else if (!(b == ce) || (b != ce)) os << "const_iterator(const_reverse_iterator at reverse rank " << pos << ") is not begin() const + " << (n - pos);
+                else if (pos > 0 && (&*a != &*ce || &*b != &*ce)) os << "const_iterator(reverse iterator at reverse rank " << pos << ") refers to another element";
+            }
+            break;
+        }
+        case 6: { // the iterators under the std iterator algorithms (iterator_category, difference_type, ... typedefs)
+            if ((size_t)std::distance(t.begin(), t.end()) != n) os << "std::distance(begin(), end()) = " << std::distance(t.begin(), t.end()) << ", size is " << n;
+            else if ((size_t)std::distance(ct().begin(), ct().end()) != n) os << "std::distance(begin() const, end() const) != size " << n;
+            else if ((size_t)std::distance(t.rbegin(), t.rend()) != n) os << "std::distance(rbegin(), rend()) != size " << n;
+            else if ((size_t)std::distance(ct().rbegin(), ct().rend()) != n) os << "std::distance(rbegin() const, rend() const) != size " << n;
+            else if (!(std::next(t.begin(), (std::ptrdiff_t)pos) == it)) os << "std::next(begin(), " << pos << ") is not the iterator reached with " << pos << " increments";
+            else if (!(std::prev(t.end(), (std::ptrdiff_t)(n - pos)) == it)) os << "std::prev(end(), " << (n - pos) << ") is not the iterator at rank " << pos;
+            else if (!(std::next(ct().rbegin(), (std::ptrdiff_t)pos) == crit)) os << "std::next(rbegin() const, " << pos << ") is not the reverse iterator at reverse rank " << pos;
+            else {
+                iterator x = t.end();
+                std::advance(x, -(std::ptrdiff_t)(n - pos));
+                if (!(x == it)) os << "std::advance(end(), -" << (n - pos) << ") is not the iterator at rank " << pos;
+                std::reverse_iterator<iterator> sr(it); // the generic adaptor of the standard library over the tlx iterator
+                if (!(sr.base() == it)) os << "std::reverse_iterator<iterator>(it).base() != it";
+                else if (pos > 0 && &*sr != &*std::prev(it)) os << "std::reverse_iterator<iterator>(it at rank " << pos << ") does not refer to the element before it";
+                else if ((size_t)std::distance(std::reverse_iterator<const_iterator>(ct().end()), std::reverse_iterator<const_iterator>(ct().begin())) != n)
+                    os << "std::reverse_iterator<const_iterator> traversal does not visit " << n << " elements";
+            }
+            break;
+        }
+        default: { // value-initialised iterators compare equal; copies and assignments keep the position
+            iterator a, b;
+            const_iterator ca, cb;
+            reverse_iterator ra, rb;
+            const_reverse_iterator cra, crb;
+            if (!(a == b) || (a != b) || !(ca == cb) || (ca != cb) || !(ra == rb) || (ra != rb) || !(cra == crb) || (cra != crb))
+                os << "two default-constructed iterators of the same flavour do not compare equal";
+            iterator x(it), y;
+            y = it;
+            const_iterator cx(cit), cy;
+            cy = cit;
+            reverse_iterator rx(rit), ry;
+            ry = rit;
+            const_reverse_iterator crx(crit), cry;
+            cry = crit;
+            if (!(x == it) || !(y == it) || (x != y) || !(cx == cit) || !(cy == cit) || !(rx == rit) || !(ry == rit) || !(crx == crit) || !(cry == crit))
+                os << "a copied / assigned iterator does not compare equal to its source (position " << pos << " of " << n << ")";
+            break;
+        }
+        }
+        return os.str();
+    }
 };
 
 // ---------------------------------------------------------------------------------------------
@@ -1086,6 +1468,15 @@ struct RegisterAlias {
     }
 };
 void run_alias_property(pbt::Source& src, bool model);
+
+//! API-AUDIT classes (targets btree_api [C01] and btree_api_invariants [C02]): the public members and overloads no other
+//! target calls -- btree_map::operator[] and writes through iterators, conversions between the four iterator flavours and
+//! the iterators under the std iterator algorithms, key_comp() / value_comp() / max_size() / get_allocator() / get_stats() as
+//! observers, insert(first,last) / bulk_load / the range constructors with single-pass input iterators, pointers, list / deque
+//! iterators and ranges of a convertible element type, empty ranges, the (comparator, allocator) constructor forms, rvalue
+//! arguments of the copy operations and the generic std::swap -- interleaved with every operation of the other targets, over
+//! the main table followed by the alias table. Own targets: no existing choice-byte -> case mapping changes.
+void run_api_property(pbt::Source& src, bool model);
 
 } // namespace bt
 } // namespace verif
